@@ -2,6 +2,7 @@ package isobmff
 
 import (
 	"bufio"
+	"io"
 
 	"github.com/evanoberholster/imagemeta/meta"
 	"github.com/pkg/errors"
@@ -53,19 +54,27 @@ func (b *box) Discard(n int) (int, error) {
 // Read the bytes from underlying reader. Is limited by the
 // constrains of the box
 func (b *box) Read(p []byte) (n int, err error) {
-	// a child that overstates its size must not read past an enclosing box
+	// what is left in this box and in every enclosing box (a child that
+	// overstates its size must not read past an enclosing box)
+	limit := b.remain
 	for o := b.outer; o != nil; o = o.outer {
-		if o.remain < len(p) {
-			return 0, ErrRemainLengthInsufficient
+		if o.remain < limit {
+			limit = o.remain
 		}
 	}
-	if b.remain >= len(p) {
-		//fmt.Println(b.remain)
-		n, err = b.reader.br.Read(p)
-		b.adjust(n)
-		return n, err
+	if len(p) == 0 {
+		return 0, nil
 	}
-	return 0, ErrRemainLengthInsufficient
+	if limit <= 0 {
+		return 0, io.EOF
+	}
+	if len(p) > limit {
+		// a short read, as io.Reader prescribes, instead of an error
+		p = p[:limit]
+	}
+	n, err = b.reader.br.Read(p)
+	b.adjust(n)
+	return n, err
 }
 
 func (b *box) adjust(n int) {
